@@ -30,9 +30,11 @@ PROPS = {
     },
     "C02": {
         "design_ref": "6.1/C02",
-        "lean_modules": ["Tulz.Props.C02"],
+        "lean_modules": ["Tulz.Props.C02", "Tulz.Proofs.Rwp.Warp"],
         "theorems": ["Rwp.C02_no_deadlock", "Rwp.C02_measure_decreases", "Rwp.C02_idle_restored", "Rwp.C02_admitted_wakes",
-                     "Rwp.C02_every_run_finishes", "Rwp.C02_idle_grants_immediately"],
+                     "Rwp.C02_every_run_finishes", "Rwp.C02_idle_grants_immediately",
+                     # not part of the property: the state from which the harness starts its long-busy runs is a reachable one
+                     "Rwp.warp_reachable"],
         "technique": "Lean 4 proof of deadlock-freedom + strictly decreasing measure (termination of every run without spurious wake-ups) + idle-state restoration, any number of threads; lock-step replay and deadlock detection on the real code",
         "level_text": "Machine-checked proof that in every reachable state with unfinished threads some non-spurious step is enabled, that every such step strictly decreases a natural-number measure (so every run is finite and ends with all lock calls returned), that an admitted waiter can always complete its wake-up, and that when all threads are done the Resource fields equal the initial state, from which read and write requests take the fast path. Tied to Resource.cpp by lock-step replay, the scheduler's deadlock detector and an idle-state probe after every execution.",
         "level_note": "Trusted: as C01, plus fairness of the real scheduler and that notify_all wakes every blocked thread (pthread). Liveness is for finite programs of lock/unlock pairs.",
@@ -261,7 +263,9 @@ def model_check(progs, runs):
     for r in runs:
         steps = canonical_steps(parse(r))
         start = len(lines)
-        lines.append("rwp init WR," + progs_of(r))
+        pg = progs_of(r)
+        # `@<bits>,…`: thread 0 first holds the write lock (with the id counters moved close to 2^bits), then runs its probe
+        lines.append("rwp init HWR," + pg.split(",", 1)[1] if pg.startswith("@") else "rwp init WR," + pg)
         lines.extend(steps)
         lines.append("rwp end" if r.status == "ok" else "rwp stuck" if r.status in ("deadlock",) else "rwp status")
         idx.append((start, len(lines)))
@@ -322,6 +326,22 @@ def run_tie(prop, spec, tier, seed):
     for i in range(nrand):
         progs = rng.pick(RENDEZVOUS) if rng.chance(1, 6) else gen_programs(rng, tier)
         lines.append("run %s seed %d pts" % (progs, rng.next() % (1 << 40)))
+    # crowds: one writer holds until every other thread (14-36 writers in random order with a few readers) has queued up
+    # behind it — queue lengths around 16 and 32 entries, where a container inside the lock would have to grow
+    ncrowd = 40 if tier == "quick" else 600
+    for i in range(ncrowd):
+        nw = rng.pick([14, 15, 16, 17, 18, 20, 30, 31, 32, 33, 34])
+        ks = ["W"] * nw + ["R"] * (2 + rng.below(5))
+        for a in range(len(ks) - 1, 0, -1):
+            b = rng.below(a + 1)
+            ks[a], ks[b] = ks[b], ks[a]
+        lines.append("run H,%s seed %d pts" % (",".join(ks), rng.next() % (1 << 40)))
+    # long-busy Resources: the main thread holds the write lock with the id counters at 2^bits - 3 (what 2^bits - 3 queued
+    # requests since the last idle moment leave behind), the other threads queue up behind it and cross the boundary
+    nwarp = 48 if tier == "quick" else 600
+    for i in range(nwarp):
+        bits = rng.pick([8, 16, 31, 32, 32, 32])
+        lines.append("run @%d,%s seed %d pts" % (bits, gen_programs(rng, "thorough").replace("N", "R"), rng.next() % (1 << 40)))
     runs += schedtie.run_batch(binary, lines)
 
     executed = [r for r in runs if r.status is not None]
@@ -339,11 +359,11 @@ def run_tie(prop, spec, tier, seed):
             distinct.add((progs_of(r), tuple(steps)))
     res.distinct = len(distinct)
     res.rule = ("executions of the real Resource.cpp under the controlled scheduler: corpus schedules (%d) + stateless DFS with <=%d preemptions over %s "
-                "(%d executions, %s) + %d seeded random schedules of random 2-%d-thread programs and reader-rendezvous programs; "
+                "(%d executions, %s) + %d seeded random schedules of random 2-%d-thread programs, reader-rendezvous programs, crowds (a holder + 16-40 queued requests) and long-busy Resources (id counters at 2^8/2^16/2^31/2^32 - 3); "
                 "distinct_nontrivial = distinct (program, sequence of critical sections/notifications) with at least one parked request" %
-                (ncorpus, 2 if tier == "quick" else 3, cfgs, dfs_total, "complete within the bound" if dfs_complete else "budget-limited", nrand,
+                (ncorpus, 2 if tier == "quick" else 3, cfgs, dfs_total, "complete within the bound" if dfs_complete else "budget-limited", nrand + ncrowd + nwarp,
                  5 if tier == "quick" else 7))
-    res.dist = {"status": stat, "executions_with_contention": parks, "dfs_executions": dfs_total, "random_executions": nrand,
+    res.dist = {"status": stat, "executions_with_contention": parks, "dfs_executions": dfs_total, "random_executions": nrand, "crowd_executions": ncrowd, "id_warp_executions": nwarp,
                 "skipped_after_crashes": len(runs) - len(executed)}
     if executed:
         res.samples = [{"run": executed[min(len(executed) - 1, ncorpus)].line, "steps": canonical_steps(parse(executed[min(len(executed) - 1, ncorpus)]))[:40]},
